@@ -365,7 +365,9 @@ def _text_object(env, task, op, ctx=None):
         if prev is not None and _same_value(prev, op['text']):
             text = prev
             env.count('same_text_object_as_previous_call')
-    elif mode == 'shared':
+    elif mode == 'shared' and not (isinstance(op['text'], list) and op['text'][0] == 'bytearray'):
+        # (a mutable buffer is never shared between clients: refilling it while another client parses it would be
+        # the user's data race, not sourcer's)
         k = json.dumps(op['text'])
         text = env.shared_texts.get(k)
         if text is None:
